@@ -225,8 +225,15 @@ func (c *c07Case) Run(ctx *core.Ctx) {
 				return fmt.Sprintf("l%d.min.html", i)
 			case c.Names == "subdir":
 				return fmt.Sprintf("v1.0/l%d", i)
+			case c.Names == "updir": // a name may climb out of the directory of the file that names it
+				return fmt.Sprintf("../l%d", i)
 			}
 			return fmt.Sprintf("l%d", i)
+		}
+		// updir: the page is a/b/c/page.vuego, layout i is one directory further up than what names it
+		upDirs := []string{"a/b/c", "a/b", "a", "."}
+		if c.Names == "updir" {
+			page = "a/b/c/page.vuego"
 		}
 		files[page] = "---\nlayout: " + lname(1) + "\n---\n" + `<i id="page">P</i>`
 		if c.Names == "implicit" && c.Len > 1 {
@@ -241,6 +248,13 @@ func (c *c07Case) Run(ctx *core.Ctx) {
 				}
 			}
 			files["layouts/"+lname(i)+".vuego"] = c07Layout(fmt.Sprintf("l%d", i), next, "")
+			if c.Names == "updir" {
+				delete(files, "layouts/"+lname(i)+".vuego")
+				files[path.Join(upDirs[i], fmt.Sprintf("l%d.vuego", i))] = c07Layout(fmt.Sprintf("l%d", i), next, "")
+				// decoys where the name would lead without its "..": next to the file that names it, and in layouts/
+				files[path.Join(upDirs[i-1], fmt.Sprintf("l%d.vuego", i))] = c07Layout(fmt.Sprintf("decoy%d", i), "none", "")
+				files[fmt.Sprintf("layouts/l%d.vuego", i)] = c07Layout(fmt.Sprintf("decoylayouts%d", i), "none", "")
+			}
 			if strings.HasPrefix(c.Names, "dotted") {
 				// a decoy spelled like the name without what follows its dot
 				files[fmt.Sprintf("layouts/l%d.vuego", i)] = c07Layout(fmt.Sprintf("decoy%d", i), "none", "")
@@ -441,7 +455,7 @@ func init() {
 		ID:        "C07",
 		Level:     "exploration",
 		CPUBudget: 20,
-		Rule: "all layout graphs over {page (root or pages/), layouts/a, layouts/b, layouts/base (absent or present), pages/a (relative twin), a base.vuego next to the page} where every file's layout key ranges over {none, a, b, base, self, missing} and the page's is given by front-matter or Fill, on engines built with NewFS(fs), New(WithFS(fs)) and NewFS(decoy, WithFS(fs)) (decoy differing in the presence of layouts/base.vuego); straight chains and cycles of chosen lengths incl. 98..101 (entered through a named layout and through the default layouts/base.vuego), cycles whose layouts use the content twice (the content doubles on every lap), the default layout itself rendered as a page, also with layouts named by numbers and booleans (YAML types the front-matter value); every subset of {page fm, a fm, b fm, Fill} defining key k; every chain of 1..3 layouts where each link uses `content` in one of 7 ways (wraps it, passes it bare, hides it behind a false / true v-if, ignores it, uses it twice, prints it escaped) x page body {one element, nothing, two elements}. " +
+		Rule: "all layout graphs over {page (root or pages/), layouts/a, layouts/b, layouts/base (absent or present), pages/a (relative twin), a base.vuego next to the page} where every file's layout key ranges over {none, a, b, base, self, missing} and the page's is given by front-matter or Fill, on engines built with NewFS(fs), New(WithFS(fs)) and NewFS(decoy, WithFS(fs)) (decoy differing in the presence of layouts/base.vuego); straight chains and cycles of chosen lengths incl. 98..101 (entered through a named layout and through the default layouts/base.vuego), cycles whose layouts use the content twice (the content doubles on every lap), the default layout itself rendered as a page, also with layouts named by numbers and booleans (YAML types the front-matter value), with dots and directories in the names, and with names that climb out of the naming file's directory (../l1 from a/b/c/page.vuego, ../l2 from there ..., with decoys where the name would lead without its dot-dot); every subset of {page fm, a fm, b fm, Fill} defining key k; every chain of 1..3 layouts where each link uses `content` in one of 7 ways (wraps it, passes it bare, hides it behind a false / true v-if, ignores it, uses it twice, prints it escaped) x page body {one element, nothing, two elements}. " +
 			"oracle: reference resolver (relative-then-layouts/, default rule, limit 100) gives the nesting order with each marker once, or error with nothing written. non-trivial = all",
 		Bounds:      map[string]string{"quick": "all graphs over <=5 files; chains 1,2,3,5,98,99,100,101,150; cycles 1,2,3,7", "thorough": "same plus chains up to 300"},
 		Assumptions: []string{"a chain of exactly 100 links is accepted either way"},
@@ -498,6 +512,9 @@ func init() {
 				emit(&c07Case{Part: "chain", Len: n, Cycle: true, Twice: true})
 			}
 			emit(&c07Case{Part: "chain", Len: 1, Names: "selfbase"})
+			for _, n := range []int{2, 3, 4} {
+				emit(&c07Case{Part: "chain", Len: n, Names: "updir"})
+			}
 			for _, names := range []string{"num", "bool", "dotted", "dotted-html", "subdir"} {
 				for _, n := range []int{2, 3, 5} {
 					emit(&c07Case{Part: "chain", Len: n, Names: names})
